@@ -84,7 +84,21 @@ EXPLANATION = (
     "inductive invariant established on the terms (the constructor leaves a key no call can hit; every exit leaves the key compared "
     "and the value computed on a miss; nobody else stores the memo; every input of the remembered computation is part of the key or "
     "stored by the constructor only); independently R7 folds call sequences on one object with the state carried from call to call "
-    "whenever resolve() stores attributes, so a stale memo is refuted by a concrete call.")
+    "whenever resolve() stores attributes, so a stale memo is refuted by a concrete call. The same for the firmware: a "
+    "rfch_hop_seq_gen() that keeps objects of static storage between calls (struct objects are forward-substituted member by "
+    "member: struct assignment, compound literals, copies of *t) is normalised to the remembered computation under the same "
+    "invariant read from the terms -- the static initialiser cannot be hit on the domain box (interval decision), a miss leaves "
+    "every compared member equal to what it is compared with and the value computed within the range of the member's integer "
+    "type, a hit changes nothing, the hit arm with the computation in the place of the remembered value is the miss arm, nobody "
+    "else stores the objects (who-writes scan of the translation unit by AST context; a store of constants that rules a hit out "
+    "is an invalidation and admitted), every input of the remembered computation is a compared key component, a table that is "
+    "only read, or a component of the same GSM time determined by the compared ones -- and, independently, the forward-substituted "
+    "terms (value returned, contents left) are folded for call sequences a, a, b, b, a from the static initialiser for pairs of "
+    "calls that differ in one input and select different channels, and for a changed Mobile Allocation under an unchanged key: "
+    "a call that returns another channel than MA[MAI] of its own inputs is reported with the pair of calls. What rfch_get_params() "
+    "stores through its ARFCN output parameter must not read an object of static storage that some function of rfch.c writes (a "
+    "remembered ARFCN or frame number at the observation point): such a value is folded for the same call sequences, the hopping "
+    "descriptor changing between the calls, and either refuted with a pair of calls or left without verdict.")
 ASSUMPTIONS = [
     "spec/hopping.json is a faithful transcription of TS 45.002 table 6.2.3 and of the algorithm of clause 6.2.3",
     "NBIN is the number of bits needed to represent N (TS 45.002 6.2.3), so 2^NBIN - 1 == (1 << N.bit_length()) - 1; the mask is "
@@ -103,6 +117,10 @@ ASSUMPTIONS = [
     "the generator in rfch_get_params() yields the selected entry converted to the generator's return type (R3, R6)",
     "C07.R10: calls of resolve() on one object do not overlap (the clock thread resolves one frame at a time); comparing the key with == "
     "is comparing its integer components; an exit of resolve() by exception is not followed by a hit for a frame of the domain",
+    "C07.R10 (firmware): calls of rfch_hop_seq_gen() do not overlap (every user of rfch_get_params() runs in the L1S / FIQ context); the "
+    "struct gsm_time handed to rfch_get_params() is consistent (fn, t1, t2, t3 belong to one frame number -- C19), so a key that compares "
+    "fn (or t1, t2 and t3) determines the other components; an object of static storage duration without initialiser is zero before the "
+    "first call; the call sequences only refute (the terms are folded with mathematical integers, every stored member converted to its type)",
     "C07.R8: functions called between the stores of one descriptor-writing sequence do not modify the descriptor copied from; struct l1s_h1 "
     "has the natural-alignment layout of its integer members; a hopping descriptor is reached only through expressions whose clang type is "
     "struct l1s_h1 (no type-punned access); the right-hand side of the ma[] element copy is not analysed",
@@ -3637,7 +3655,8 @@ def r10_c_sequences(L, gen, spec):
         return got, tuple(_c_convert(v, *types[k]) for v, k in zip(new, gen.state))
 
     def ctxt(c):
-        return "%s(HSN = %d, MAIO = %d, N = %d, FN = %d)" % (gen.HOP, c[0], c[1], c[2], c[3])
+        return "%s(HSN = %d, MAIO = %d, N = %d, FN = %d: T1 = %d, T2 = %d, T3 = %d)" % (
+            gen.HOP, c[0], c[1], c[2], c[3], c[3] // 1326, c[3] % 26, c[3] % 51)
 
     def sel(got, ma):
         return "MA[%d]" % ma.index(got) if isinstance(ma, tuple) and got in ma else repr(got)[:50]
@@ -3696,6 +3715,203 @@ def r10_c_sequences(L, gen, spec):
         L.floor("C07.R10", "calls of the generator folded in sequences with the state carried", total, 2000)
 
 
+class _UseStructSym(_StructSym):
+    """_StructSym that keeps a call of the hopping generator as an opaque term (see _UseSym)"""
+
+    def __init__(self, tu, keep):
+        _StructSym.__init__(self, tu)
+        self.keep = keep
+
+    def call(self, m, lw):
+        ks = kids(m)
+        if ctext(ks[0]) == self.keep:
+            return ("call", self.keep) + tuple(lw.lower(a) for a in ks[1:])
+        return _StructSym.call(self, m, lw)
+
+
+def _static_objects(tu, funcs):
+    """declaration id -> (name, VarDecl) of the objects of static storage duration private to the translation unit: file-level
+    `static` variables and `static` locals of the given functions"""
+    out = {}
+    for name, d in tu.vars.items():
+        if kind(d) == "VarDecl" and d.get("storageClass") == "static":
+            out[d.get("id")] = (name, d)
+    for fn in funcs:
+        fd = tu.functions.get(fn)
+        if fd is None or not any(kind(c) == "CompoundStmt" for c in kids(fd)):
+            continue
+        for d in walk(tu.body(fd)):
+            if kind(d) == "VarDecl" and d.get("storageClass") == "static":
+                out[d.get("id")] = (d.get("name"), d)
+    return out
+
+
+def _maybe_written(tu, ids):
+    """the ids of `ids` some function of the translation unit uses other than by reading a value out of it (stores, ++, an
+    address taken, the object handed on): only an object that is never written holds its initialiser for ever"""
+    out = set()
+    for fname, fd in tu.functions.items():
+        if not any(kind(c) == "CompoundStmt" for c in kids(fd)):
+            continue
+        for x in walk(tu.body(fd)):
+            if kind(x) != "DeclRefExpr" or x.get("referencedDecl", {}).get("id") not in ids:
+                continue
+            cur, par, sized = x, tu.parent.get(id(x)), False
+            q = par
+            while q is not None and kind(q) != "FunctionDecl":
+                sized = sized or kind(q) == "UnaryExprOrTypeTraitExpr"
+                q = tu.parent.get(id(q))
+            if sized:
+                continue
+            while par is not None and (kind(par) == "ParenExpr" or (kind(par) == "MemberExpr" and not par.get("isArrow")) or (
+                    kind(par) == "ImplicitCastExpr" and par.get("castKind") == "ArrayToPointerDecay") or (
+                    kind(par) == "ArraySubscriptExpr" and kids(par)[0] is cur)):
+                cur, par = par, tu.parent.get(id(par))
+            if not (kind(par) == "ImplicitCastExpr" and par.get("castKind") == "LValueToRValue"):
+                out.add(x["referencedDecl"]["id"])
+    return out
+
+
+def r10_c_getter_state(L, gen, spec):
+    """C07.R10 at the observation point: what rfch_get_params() stores through its ARFCN output parameter must not depend on
+    objects rfch.c keeps between calls (a remembered ARFCN, a remembered frame number) -- the generator's own memo is judged
+    inside the generator (CSide._unmemo, r10_c_sequences).  Decided on the forward-substituted value (the generator's call
+    kept as the entry it selects): a value that reads no object of static storage some function writes is a function of the
+    current inputs.  One that does is folded for call sequences a, a, b, b, a from the static initialisers, with the
+    configuration under which the generator's value is returned found by folding: a call that returns another channel
+    than the generator selects for its own inputs is reported with the pair of calls; otherwise there is no verdict."""
+    tu = gen.tu
+    g = tu.func("rfch_get_params")
+    gp = [p.get("name") for p in tu.fparams(g)]
+    if len(gp) < 2:
+        raise AnalysisError("rfch_get_params(): expected (t, arfcn_p, ...)")
+    sym = _UseStructSym(tu, gen.HOP)
+    try:
+        out = sym.run(g)
+        val = sym.final(out, "*%s" % gp[1])
+    except AnalysisError as e:
+        # the function leaves the vocabulary of the forward substitution: coarse scan of what it can reach
+        reach = {"rfch_get_params"} | (_reach_callees(tu, g) - gen.allowed_functions())
+        objs = _static_objects(tu, reach)
+        dirty = _maybe_written(tu, set(objs))
+        for fn in sorted(reach):
+            for x in walk(tu.body(tu.functions[fn])):
+                if kind(x) == "DeclRefExpr" and x.get("referencedDecl", {}).get("id") in dirty:
+                    raise AnalysisError("%s() uses `%s`, an object rfch.c keeps between calls, and rfch_get_params() cannot be "
+                                        "forward-substituted (%s); unclassifiable" % (fn, objs[x["referencedDecl"]["id"]][0], str(e)[:100]))
+        return
+    objs = _static_objects(tu, {"rfch_get_params"} | {n for n in sym.substituted if n in tu.functions})
+    dirty = {objs[i][0]: objs[i][1] for i in _maybe_written(tu, set(objs))}
+    val = G.renorm(val, lambda x: GEN_RESULT if x[0] == "call" and x[1] == gen.HOP else None)
+    reads = sorted(x[1] for x in variables(val) if CGen.root(x[1]) in dirty and CGen.root(x[1]) not in gp)
+    if not reads:
+        return
+    what = "rfch_get_params(): the ARFCN stored through *%s depends on %s, kept between calls" % (gp[1], ", ".join("`%s`" % r for r in reads[:4]))
+    note = L.extra.setdefault("getter_call_sequences", {})
+    rntable = spec["RNTABLE"]
+    # members of the state with their types and initial values
+    state, types, init = [], {}, {}
+    try:
+        for r in sorted({CGen.root(x) for x in reads}):
+            d = dirty[r]
+            rec = _node_record(d)
+            ini = [c for c in kids(d) if kind(c) not in ("", None) and not kind(c).endswith("Attr")]
+            if rec is not None:
+                vals = _StructCL(sym, {}).struct_value(ini[-1], rec) if ini else None
+                members = [(r + "." + ".".join(pth), ty, vals[pth] if vals is not None else C(0)) for pth, ty in record_leaves(tu, rec)]
+            else:
+                v = tu.fold(ini[-1]) if ini else 0
+                members = [(r, d.get("type", {}).get("qualType", ""), C(v) if v is not None else None)]
+            for k, ty, v in members:
+                if v is None or v[0] != "c" or _c_int_type(ty) is None:
+                    raise AnalysisError("`%s` of type `%s` has no constant integer initial value" % (k, ty))
+                state.append(k)
+                types[k], init[k] = _c_int_type(ty), v[1]
+    except AnalysisError as e:
+        raise AnalysisError("%s; %s; unclassifiable" % (what, e))
+    finals = {k: G.renorm(sym.final(out, k), lambda x: GEN_RESULT if x[0] == "call" and x[1] == gen.HOP else None) for k in state}
+    allv = set(variables(val))
+    for f in finals.values():
+        allv |= variables(f)
+    t = gp[0]
+    timev = {V("%s->fn" % t): lambda fn: fn, V("%s->t1" % t): lambda fn: fn // 1326, V("%s->t2" % t): lambda fn: fn % 26,
+             V("%s->t3" % t): lambda fn: fn % 51, V("%s->tc" % t): lambda fn: (fn // 51) % 8}
+    fixed = {V("*%s" % gp[1]): 0}
+    config = sorted((v for v in allv if v[1] not in state and v not in timev and v not in fixed and v != GEN_RESULT
+                     and _field_role(v[1]) is None), key=repr)
+    if len(config) > 7:
+        raise AnalysisError("%s and on %d other objects; unclassifiable" % (what, len(config)))
+    cold = {V(k): _c_convert(init[k], *types[k]) for k in state}
+    SENT = 54321
+    conf = None
+    for combo in itertools.product((1, 0, 2), repeat=len(config)):
+        env = dict(zip(config, combo))
+        env.update(fixed)
+        env.update(cold)
+        env.update({v: f(7) for v, f in timev.items()})
+        env.update({v: {"hsn": 1, "maio": 0, "n": 5}[_field_role(v[1])] for v in allv if _field_role(v[1])})
+        env[GEN_RESULT] = SENT
+        if eval_term(val, env) == SENT:
+            conf = dict(zip(config, combo))
+            break
+    if conf is None:
+        raise AnalysisError("%s; no configuration was found under which the first call returns the generator's value; unclassifiable" % what)
+
+    def call(st, c, ma):
+        h, m, nn, fn = c
+        env = dict(conf)
+        env.update(fixed)
+        env.update(st)
+        env.update({v: f(fn) for v, f in timev.items()})
+        env.update({v: {"hsn": h, "maio": m, "n": nn}[_field_role(v[1])] for v in allv if _field_role(v[1])})
+        env[GEN_RESULT] = ma[ref_select(rntable, h, m, nn, fn)[0]]
+        got = eval_term(val, env)
+        new = {V(k): eval_term(finals[k], env) for k in state}
+        if got is None or any(v is None for v in new.values()):
+            return None, None
+        return got, {V(k): _c_convert(new[V(k)], *types[k]) for k in state}
+    results, total, skipped = {}, 0, None
+    pairs = [(w, a, b, _seq_ma(a[2]), _seq_ma(b[2])) for w, a, b in sequence_pairs(rntable)]
+    pairs += [("another Mobile Allocation of the same length", (h, 3 % nn, nn, fn), (h, 3 % nn, nn, fn), _seq_ma(nn), _seq_ma(nn, 1))
+              for h in (0, 1, 63) for nn in (2, 5, 8, 64) for fn in (0, 7, 1326 * 700 + 611, FN_LAST)]
+    for w, a, b, ma_a, ma_b in pairs:
+        rec = results.setdefault(w, [0, []])
+        st, prev = dict(cold), None
+        for c, ma in ((a, ma_a), (a, ma_a), (b, ma_b), (b, ma_b), (a, ma_a)):
+            got, st2 = call(st, c, ma)
+            if got is None:
+                skipped = "the stored value cannot be folded for HSN = %d, MAIO = %d, N = %d, FN = %d" % c
+                break
+            st = st2
+            want = ma[ref_select(rntable, *c)[0]]
+            rec[0] += 1
+            if got != want and len(rec[1]) < 50:
+                rec[1].append("rfch_get_params(FN = %d) with the descriptor (HSN = %d, MAIO = %d, N = %d)%s: the generator selects ARFCN %d, "
+                              "%d is stored" % (c[3], c[0], c[1], c[2], " after the call for FN = %d with (HSN = %d, MAIO = %d, N = %d)%s" % (
+                                  prev[3], prev[0], prev[1], prev[2], " and another allocation" if w.startswith("another Mobile") and prev == c else "")
+                                  if prev else " as the first call", want, got))
+            prev = c
+        if skipped:
+            break
+    violated = False
+    for w in sorted(results):
+        k, bad = results[w]
+        total += k
+        if bad:
+            violated = True
+            L.ob("C07.R10", F_RFCH, "rfch_get_params",
+                 "rfch_get_params() keeps %s between calls: called again with %s it stores the channel the generator selects for the "
+                 "inputs of each call (call sequences a, a, b, b, a from the static initialisers folded on the forward-substituted "
+                 "value, the state carried from call to call)" % (", ".join("`%s`" % r for r in sorted({CGen.root(x) for x in reads})), w),
+                 "the generator's value of each call", "%s; differs for %s%d of %d calls" % (
+                     bad[0], "at least " if len(bad) >= 50 else "", len(bad), k), False, tu.line(g))
+    note.update({"state": state, "configuration": {v[1]: c for v, c in conf.items()}, "calls_folded": total,
+                 "status": "skipped: %s" % skipped if skipped else "complete"})
+    if not violated:
+        raise AnalysisError("%s; %d calls in sequences do not refute it%s, and no proof that it is the generator's value for the current "
+                            "inputs is attempted; unclassifiable" % (what, total, " (%s)" % skipped if skipped else ""))
+
+
 def run(L, tier):
     spec = load_spec()
     repo = Repo(L.repo)
@@ -3726,4 +3942,5 @@ def run(L, tier):
     L.stage(r6_c_use, L, cs, spec["RNTABLE"])
     L.stage(r9_c_carriage, L, cs)
     L.stage(r10_c_sequences, L, gen, spec)
+    L.stage(r10_c_getter_state, L, gen, spec)
     L.stage(r8_descriptor_writers, L, tier)
